@@ -413,7 +413,7 @@ def run_case(case: dict) -> dict:
                 pass
         for h in leftover:
             lg.removeHandler(h)
-        obs["reports"] = sorted(m.split("-hook")[0] for lv, m in cap.items if isinstance(lv, int) and "-hook failed" in m)
+        obs["reports"] = [m.split("-hook")[0] for lv, m in cap.items if isinstance(lv, int) and "-hook failed" in m]
         # ---- lock --------------------------------------------------------------------------------
         if case["lock"]:
             obs["lock_released"] = not G["lock_held"]()
